@@ -1,10 +1,13 @@
 import BreezyVerif.Lemmas.C52
+import BreezyVerif.Lemmas.C52U
 /-!
 C52 — every reconfiguration and every format conversion preserves the
 observation of a location (branch tip, history, tags, working tree content and
 pending changes), for every location state, every target and every path
 through the layout graph (no bound on its length), whether the operation
-succeeds, is refused, or fails half-way.
+succeeds, is refused, or fails half-way; a successful `to_X` yields layout X;
+`upgrade` runs the converters that reach the target formats and keeps what is
+observed.
 -/
 namespace BreezyVerif.C52
 
@@ -18,54 +21,79 @@ theorem factory_tree_flags (l : Loc) (t : Target) (f : Flags) (h : factory l t =
     | skip
   all_goals (cases hr : l.repo <;> try simp_all) <;> (try subst h) <;> simp_all
 
-/-- **One transition** (`to_branch`, `to_tree`, `to_checkout`,
-`to_lightweight_checkout`, `to_standalone`, `to_use_shared`, not forced):
-tip, history, tags and format tag are unchanged; a working tree that is kept
-keeps its content and pending changes; a tree is only removed when it has no
-pending changes; a tree that is created is the clean tree of the tip.  Holds
-for the state reached on success, on refusal and on a failure in mid-`apply`. -/
-theorem convert_preserves_obs (t : Target) (l : Loc) : Keeps l (reconfigure t false l).1 := by
+/-- a reference is only ever created in place of a local branch -/
+theorem factory_reference_flag (l : Loc) (t : Target) (f : Flags) (h : factory l t = .ok f) :
+    f.createReference = true → l.branch ≠ .reference := by
+  cases t <;> simp [factory, plan, planShared] at h
+  all_goals first
+    | (subst h; simp) ; done
+    | (cases hr : l.repo <;> simp_all <;> (subst h; simp))
+    | skip
+  all_goals (cases hr : l.repo <;> try simp_all) <;> (try subst h) <;> simp_all
+
+/-- **One transition, forced or not** (`to_branch`, `to_tree`, `to_checkout`,
+`to_lightweight_checkout`, `to_standalone`, `to_use_shared`): the format tag is
+unchanged; tip and history are unchanged or become those of the branch at the
+bind location; every tag definition survives (local tags are merged into the
+referenced branch, which only adds definitions) and no definition appears from
+nowhere; a working tree that is kept keeps its content and pending changes; a
+tree is only removed when it has no pending changes, unless forced; a tree that
+is created is the clean tree of the tip.  Holds for the state reached on
+success, on refusal and on a failure in mid-`apply`. -/
+theorem reconfigure_keeps_any (t : Target) (force : Bool) (l : Loc) (hinv : NoConflict l.tags l.refTags) :
+    KeepsF force l (reconfigure t force l).1 := by
   unfold reconfigure
   cases hf : factory l t with
-  | error e => exact keeps_refl l
+  | error e => exact keepsF_refl force l hinv
   | ok f =>
     have hfl := factory_tree_flags l t f hf
     by_cases ha : f.any = true
     · simp only [ha, if_true]
-      have hp := applyFlags_parts l f false
-      refine keeps_of_parts l _ f hp.1 hfl.1 hfl.2 ?_
-      rcases hp.2 with h | ⟨hs, h⟩
-      · exact Or.inl h
-      · exact Or.inr ⟨by simpa using hs, h⟩
-    · simp only [ha]; exact keeps_refl l
+      exact applyFlags_keepsF l f force hinv hfl.1 hfl.2
+    · simp only [ha]; exact keepsF_refl force l hinv
 
-/-- a format conversion changes the format tag and nothing that is observed -/
-theorem upgrade_preserves_obs (fmt : Nat) (l l' : Loc) (h : convert fmt l = some l') :
-    obs l' = obs l ∧ l'.format = fmt ∧ l'.branch = l.branch ∧ l'.repo = l.repo := by
-  unfold convert at h
-  split at h
-  · simp at h
-  · simp only [Option.some.injEq] at h; subst h; simp [obs]
+/-- **One transition, not forced**: in addition tip and history are unchanged —
+`_check` refuses to replace the branch by a reference to a branch with another tip. -/
+theorem convert_preserves_obs (t : Target) (l : Loc) (hinv : RefInv l) : Keeps l (reconfigure t false l).1 := by
+  refine ⟨?_, ?_, reconfigure_keeps_any t false l hinv.2⟩
+  all_goals
+    unfold reconfigure
+    cases hf : factory l t with
+    | error e => rfl
+    | ok f =>
+      by_cases ha : f.any = true
+      · simp only [ha, if_true]
+        first
+          | exact (applyFlags_tip l f hinv (factory_reference_flag l t f hf)).1
+          | exact (applyFlags_tip l f hinv (factory_reference_flag l t f hf)).2
+      · simp only [ha]; rfl
 
 theorem keeps_treeInv (l l' : Loc) (h : Keeps l l') (hi : TreeInv l) : TreeInv l' := by
-  unfold Keeps at h; unfold TreeInv at *
-  obtain ⟨h1, _, _, _, h5, h6, h7⟩ := h
+  obtain ⟨h1, _, _, _, _, h5, _, h7⟩ := h
+  unfold TreeInv at *
   intro ht hd
   cases hlt : l.tree
-  · have := h7 hlt ht; rw [this.2, h1]
+  · exact (h7 hlt ht).2
   · have := h5 hlt ht
     rw [this.1, h1]; exact hi hlt (by rw [← this.2]; exact hd)
+
+theorem keeps_refInv (l l' : Loc) (h : Keeps l l') (hi : RefInv l) : RefInv l' := by
+  obtain ⟨h1, h2, _, _, hr, _⟩ := h
+  obtain ⟨r1, r2, _, _, _, _, r7⟩ := hr
+  exact ⟨by rw [r1, r2, h1, h2]; exact hi.1, r7⟩
 
 /-- **Any path through the layout graph.**  Starting from a location whose
 clean tree (if it has one and it is clean) is the tree of its tip, after any
 sequence of reconfigurations — each attempted whatever happened to the one
-before — tip, history, tags and format are unchanged; pending changes are never
-lost (a tree with pending changes is still there, untouched); and whenever the
-location has a working tree at the start and at the end, its content and
-pending-change state are the same. -/
-theorem reconfigure_composes (ts : List Target) (l : Loc) (hi : TreeInv l) :
+before — tip, history and format are unchanged; every tag keeps its definition
+and every tag at the end was a tag of the location or of the branch at the bind
+location; pending changes are never lost (a tree with pending changes is still
+there, untouched); and whenever the location has a working tree at the start
+and at the end, its content and pending-change state are the same. -/
+theorem reconfigure_composes (ts : List Target) (l : Loc) (hi : TreeInv l) (hr : RefInv l) :
     let l' := runAll false ts l
-    l'.tip = l.tip ∧ l'.hist = l.hist ∧ l'.tags = l.tags ∧ l'.format = l.format ∧
+    l'.tip = l.tip ∧ l'.hist = l.hist ∧ l'.format = l.format ∧
+    TagsSub l.tags l'.tags ∧ TagsFrom l.tags l.refTags l'.tags ∧ TagsFrom l.tags l.refTags l'.refTags ∧
     (l.tree = true → l.dirty = true → l'.tree = true ∧ l'.treeCode = l.treeCode ∧ l'.dirty = true) ∧
     (l.tree = true → l'.tree = true → l'.treeCode = l.treeCode ∧ l'.dirty = l.dirty) ∧
     (l'.tree = true → l.tree = false → l'.dirty = false ∧ l'.treeCode = cleanCode l.tip) := by
@@ -73,19 +101,25 @@ theorem reconfigure_composes (ts : List Target) (l : Loc) (hi : TreeInv l) :
   | nil =>
     show _ ∧ _
     simp only [runAll]
-    refine ⟨trivial, trivial, trivial, trivial, ?_, ?_, ?_⟩ <;> intro a b <;> simp_all
+    refine ⟨trivial, trivial, trivial, tagsSub_refl _, fun _ _ h => Or.inl h, fun _ _ h => Or.inr h, ?_, ?_, ?_⟩ <;>
+      intro a b <;> simp_all
   | cons t ts ih =>
     simp only [runAll]
-    have hk := convert_preserves_obs t l
+    have hk := convert_preserves_obs t l hr
     have hi' := keeps_treeInv l _ hk hi
-    have := ih (reconfigure t false l).1 hi'
-    unfold Keeps at hk
+    have hr' := keeps_refInv l _ hk hr
+    have := ih (reconfigure t false l).1 hi' hr'
     unfold TreeInv at hi hi'
-    obtain ⟨k1, k2, k3, k4, k5, k6, k7⟩ := hk
-    obtain ⟨a1, a2, a3, a4, a5, a6, a7⟩ := this
+    obtain ⟨k1, k2, _, k4, ⟨_, _, kt1, kt2, kt3, kt4, _⟩, k5, k6, k7⟩ := hk
+    obtain ⟨a1, a2, a4, at1, at2, at3, a5, a6, a7⟩ := this
     generalize (reconfigure t false l).1 = m at *
     generalize runAll false ts m = r at *
-    refine ⟨by omega, by omega, by omega, by omega, ?_, ?_, ?_⟩
+    have hfrom : ∀ ts' : Tags, TagsFrom m.tags m.refTags ts' → TagsFrom l.tags l.refTags ts' := by
+      intro ts' h n v hv
+      rcases h n v hv with h | h
+      · exact kt3 n v h
+      · exact kt4 n v h
+    refine ⟨by omega, by omega, by omega, tagsSub_trans kt1 at1, hfrom _ at2, hfrom _ at3, ?_, ?_, ?_⟩
     · intro ht hd
       cases hmt : m.tree
       · have := k6 ht hmt; simp_all
@@ -96,7 +130,7 @@ theorem reconfigure_composes (ts : List Target) (l : Loc) (hi : TreeInv l) :
       cases hmt : m.tree
       · have hld := k6 ht hmt
         have ha7 := a7 hrt hmt
-        have hcode := hi ht hld
+        have hcode := hi ht (by simpa using hld)
         simp_all
       · have := k5 ht hmt
         have := a6 hmt hrt
@@ -108,28 +142,156 @@ theorem reconfigure_composes (ts : List Target) (l : Loc) (hi : TreeInv l) :
         have := a6 hmt hrt
         simp_all
 
+/-- **Any path, forced or not**: tip and history at the end are those at the
+start or those of the branch at the bind location (never anything else), the
+format tag stays, every tag keeps its definition and none appears from nowhere. -/
+theorem forced_path_tip (force : Bool) (ts : List Target) (l : Loc) (hinv : NoConflict l.tags l.refTags) :
+    let l' := runAll force ts l
+    TipKeeps l l' ∧ l'.format = l.format ∧ TagsSub l.tags l'.tags ∧ TagsFrom l.tags l.refTags l'.tags := by
+  suffices h : TipKeeps l (runAll force ts l) ∧ (runAll force ts l).format = l.format ∧ RefKeeps l (runAll force ts l) from
+    ⟨h.1, h.2.1, h.2.2.2.2.1, h.2.2.2.2.2.2.1⟩
+  induction ts generalizing l with
+  | nil => exact ⟨Or.inl ⟨rfl, rfl⟩, rfl, refKeeps_refl l hinv⟩
+  | cons t ts ih =>
+    simp only [runAll]
+    obtain ⟨k1, k2, ⟨r1, r2, r3, r4, r5, r6, r7⟩, _⟩ := reconfigure_keeps_any t force l hinv
+    obtain ⟨a1, a2, ⟨s1, s2, s3, s4, s5, s6, s7⟩⟩ := ih (reconfigure t force l).1 r7
+    generalize (reconfigure t force l).1 = m at *
+    generalize runAll force ts m = r at *
+    have hfrom : ∀ ts' : Tags, TagsFrom m.tags m.refTags ts' → TagsFrom l.tags l.refTags ts' := by
+      intro ts' h n v hv
+      rcases h n v hv with h | h
+      · exact r5 n v h
+      · exact r6 n v h
+    refine ⟨?_, by omega, by omega, by omega, tagsSub_trans r3 s3, tagsSub_trans r4 s4, hfrom _ s5, hfrom _ s6, s7⟩
+    unfold TipKeeps at *
+    rcases a1 with ⟨a, b⟩ | ⟨a, b⟩
+    · rcases k1 with ⟨c, d⟩ | ⟨c, d⟩
+      · exact Or.inl ⟨a.trans c, b.trans d⟩
+      · exact Or.inr ⟨a.trans c, b.trans d⟩
+    · exact Or.inr ⟨a.trans r1, b.trans r2⟩
+
+/-- a forced path from a location that is in sync with its bind location keeps tip and history -/
+theorem forced_synced_preserves (ts : List Target) (l : Loc) (hr : RefInv l) (hs : l.refTip = l.tip) :
+    (runAll true ts l).tip = l.tip ∧ (runAll true ts l).hist = l.hist := by
+  have h := (forced_path_tip true ts l hr.2).1
+  unfold TipKeeps at h
+  rcases h with h | h
+  · exact h
+  · exact ⟨h.1.trans hs, h.2.trans (hr.1 hs)⟩
+
+/-- **The layout asked for is the layout obtained**: a `to_X` that succeeds (forced or not) leaves layout X. -/
+theorem reconfigure_ok_layout (t : Target) (force : Bool) (l : Loc) (h : (reconfigure t force l).2 = none) :
+    layoutIs t (reconfigure t force l).1 = true := layout_ok t force l h
+
+/-- `AlreadyBranch` / `AlreadyTree` / … is raised exactly when the location has the layout asked for -/
+theorem already_iff_layout (t : Target) (force : Bool) (l : Loc) :
+    (reconfigure t force l).2 = some .already ↔ layoutIs t l = true := layout_already t force l
+
+/-- an error other than NoBindLocation / NoSharedRepository leaves the location exactly as it was -/
+theorem refusal_changes_nothing (t : Target) (force : Bool) (l : Loc) (e : Err) (h : (reconfigure t force l).2 = some e)
+    (he : e = .already ∨ e = .notSupported ∨ e = .uncommittedChanges ∨ e = .unsyncedBranches) :
+    (reconfigure t force l).1 = l := refusal_same t force l e h he
+
 /-- why `_check` matters: with `force` a tree with pending changes is removed -/
 theorem force_destroys_witness :
-    let l : Loc := ⟨true, true, .unbound, .own, false, false, true, 0, 1, 0, 0, 0⟩
+    let l : Loc := { tree := true, dirty := true, branch := .unbound, repo := .own, sharedAbove := false, bindKnown := false,
+                     format := 0, tip := 1, hist := 1, tags := [], treeCode := 0, refTip := 1, refHist := 1, refTags := [] }
     (reconfigure .branch true l).1.tree = false ∧ (reconfigure .branch true l).2 = none ∧
     (reconfigure .branch false l) = (l, some .uncommittedChanges) := by decide
+
+/-- … and a branch is replaced by a reference to a branch with ANOTHER tip: the tip moves (refused when not forced) -/
+theorem force_moves_tip_witness :
+    let l : Loc := { tree := true, dirty := false, branch := .bound, repo := .shared, sharedAbove := true, bindKnown := true,
+                     format := 0, tip := 1, hist := 1, tags := [(0, 1)], treeCode := 0, refTip := 2, refHist := 2, refTags := [(1, 1)] }
+    (reconfigure .lightweightCheckout true l).2 = none ∧ (reconfigure .lightweightCheckout true l).1.tip = 2 ∧
+    (reconfigure .lightweightCheckout true l).1.tags = [(1, 1), (0, 1)] ∧
+    (reconfigure .lightweightCheckout false l) = (l, some .unsyncedBranches) := by decide
+
+/-- two definitions of one tag: `merge_to` keeps the referenced branch's, the local definition is dropped silently
+(this is what `NoConflict` excludes) -/
+theorem tag_conflict_witness :
+    let l : Loc := { tree := true, dirty := false, branch := .unbound, repo := .own, sharedAbove := false, bindKnown := true,
+                     format := 0, tip := 1, hist := 1, tags := [(0, 1)], treeCode := 0, refTip := 1, refHist := 1, refTags := [(0, 2)] }
+    (reconfigure .lightweightCheckout false l).2 = none ∧ lookupTag l.tags 0 = some 1 ∧
+    lookupTag (reconfigure .lightweightCheckout false l).1.tags 0 = some 2 := by decide
 
 /-- a failure in the middle of `apply` leaves the earlier steps done: a branch
 without a remembered location asked to become a checkout gets its working tree
 and then fails with NoBindLocation -/
 theorem partial_apply_witness :
-    let l : Loc := ⟨false, false, .unbound, .own, false, false, true, 0, 1, 0, 0, 0⟩
+    let l : Loc := { tree := false, dirty := false, branch := .unbound, repo := .own, sharedAbove := false, bindKnown := false,
+                     format := 0, tip := 1, hist := 1, tags := [], treeCode := 0, refTip := 1, refHist := 1, refTags := [] }
     (reconfigure .checkout false l).2 = some .noBindLocation ∧ (reconfigure .checkout false l).1.tree = true ∧
     (reconfigure .checkout false l).1.branch = .unbound := by decide
 
-/-! non-vacuity: a dirty bound checkout in a shared repository walks through five layouts and keeps everything -/
-example :
-    let l : Loc := ⟨true, true, .bound, .shared, true, true, true, 0, 5, 0, 0, 0⟩
-    TreeInv l ∧
-    (runAll false [.lightweightCheckout, .tree, .standalone, .checkout, .useShared, .branch] l).branch = .unbound ∧
-    obs (runAll false [.lightweightCheckout, .tree, .standalone, .checkout, .useShared, .branch] l) = obs l := by
-  refine ⟨by intro _ h; simp at h, by decide, by decide⟩
+/-! non-vacuity: a dirty bound checkout in a shared repository whose master has one more tag walks through five layouts
+and keeps everything; the same with a CLEAN tree (`TreeInv` holds non-trivially: tree code = clean code of the tip) that
+is destroyed and re-created on the way -/
+def exDirty : Loc :=
+  { tree := true, dirty := true, branch := .bound, repo := .shared, sharedAbove := true, bindKnown := true,
+    format := 0, tip := 5, hist := 5, tags := [(0, 3)], treeCode := 0, refTip := 5, refHist := 5, refTags := [(0, 3), (1, 4)] }
 
-example : convert 0 ⟨true, true, .bound, .shared, true, true, true, 3, 5, 0, 0, 0⟩ ≠ none := by decide
+def exClean : Loc := { exDirty with dirty := false, treeCode := cleanCode 5 }
+
+example :
+    TreeInv exDirty ∧ RefInv exDirty ∧
+    (runAll false [.lightweightCheckout, .tree, .standalone, .checkout, .useShared, .branch] exDirty).branch = .unbound ∧
+    (runAll false [.lightweightCheckout, .tree, .standalone, .checkout, .useShared, .branch] exDirty).tree = true ∧
+    (runAll false [.lightweightCheckout, .tree, .standalone, .checkout, .useShared, .branch] exDirty).tags = [(0, 3), (1, 4)] := by
+  refine ⟨by intro _ h; simp [exDirty] at h, ⟨fun _ => rfl, ?_⟩, by decide, by decide, by decide⟩
+  intro n v w h1 h2
+  simp only [exDirty, lookupTag] at h1 h2
+  split at h1 <;> simp_all
+
+example :
+    TreeInv exClean ∧ exClean.tree = true ∧ exClean.dirty = false ∧
+    (runAll false [.branch, .lightweightCheckout, .tree] exClean).tree = true ∧
+    obs (runAll false [.branch, .lightweightCheckout, .tree] exClean) = { obs exClean with tags := [(0, 3), (1, 4)] } := by
+  refine ⟨fun _ _ => rfl, rfl, rfl, by decide, by decide⟩
+
+example : (reconfigure .tree false exDirty).2 = none ∧ layoutIs .tree exDirty = false := by decide
+
+/-! ## format upgrade -/
+
+/-- **Upgrade keeps what is observed**: whatever the component formats and the
+target, after `upgrade` (complete, up to date, or stopped by
+BadConversionTarget) the branch's `last_revision_info`, its tags, its
+remembered locations, the working tree's parents (basis + pending merges) and
+inventory and the repository's revisions are what they were. -/
+theorem upgrade_preserves_obs (tg : UTarget) (u : ULoc) : uobs (upgrade tg u).1 = uobs u := upgrade_obs tg u
+
+/-- **Upgrade reaches the target** in at most two passes of the converter, without
+error, from every supported combination: branch formats 5–8 not newer than the
+target's, working tree formats 3–6 with a dirstate target (4–6) not older than
+the tree (or target 5 / 6 from any dirstate tree). -/
+theorem upgrade_reaches_target (tg : UTarget) (u : ULoc) (h : Supported tg u) (hn : needsConversion tg u = true) :
+    (upgrade tg u).2.2 = none ∧ needsConversion tg (upgrade tg u).1 = false ∧ (upgrade tg u).2.1.length ≤ 2 :=
+  upgrade_reaches tg u h hn
+
+/-- UpToDateFormat is raised exactly when no component needs converting (and nothing is touched) -/
+theorem upgrade_uptodate_iff (tg : UTarget) (u : ULoc) :
+    (upgrade tg u).2.2 = some .upToDate ↔ needsConversion tg u = false := upgrade_uptodate tg u
+
+/-- the knit-era location (branch 5, tree 3) needs TWO passes: the tree object is not re-opened after `3to4` -/
+theorem knit_two_pass_witness :
+    let u : ULoc := { repo := some 1, revs := 9,
+                      branch := some { fmt := 5, revHistory := [1, 2, 3], lastRev := (0, 0), parent := some 1, bound := none,
+                                       push := none, tags := [] },
+                      tree := some { fmt := 3, lastRevision := 3, pendingMerges := [8], dsParents := [], inv := 7 } }
+    Supported ⟨2, 7, 6⟩ u ∧
+    (upgrade ⟨2, 7, 6⟩ u).2.1 = [[.repoCopy, .b5to6, .b6to7, .t3to4], [.t4or5to6]] ∧
+    ((upgrade ⟨2, 7, 6⟩ u).1.branch.map (·.info)) = some (3, 3) ∧
+    ((upgrade ⟨2, 7, 6⟩ u).1.tree.map (·.parents)) = some [3, 8] := by
+  refine ⟨by decide, by decide, by decide, by decide⟩
+
+/-- a branch newer than the target's: BadConversionTarget, after the repository has already been converted -/
+theorem branch_downgrade_witness :
+    let u : ULoc := { repo := some 1, revs := 9,
+                      branch := some { fmt := 8, revHistory := [], lastRev := (3, 3), parent := none, bound := none,
+                                       push := none, tags := [(0, 1)] },
+                      tree := none }
+    (upgrade ⟨2, 7, 6⟩ u).2.2 = some .badConversionTarget ∧ (upgrade ⟨2, 7, 6⟩ u).1.repo = some 2 ∧
+    uobs (upgrade ⟨2, 7, 6⟩ u).1 = uobs u := by decide
 
 end BreezyVerif.C52
